@@ -111,23 +111,24 @@ def build_corpus(ctx, exe):
         ext = fn.rsplit(".", 1)[-1]
         if ext in ("xz", "lzma", "lz"):
             data = open(os.path.join(tdir, fn), "rb").read()
-            if len(data) <= (20000 if quick else 60000):
+            if len(data) <= 60000:
                 add(ext, "tests/files/" + fn, data)
     # valid files of every format from the real encoders
     samples = L.samples(rng, quick)
     glines, gmeta = [], []
     for si, s in enumerate(samples):
         big = len(s) > 6000
-        for v in (rng.sample(range(256), 6 if big else 14)):
+        huge = len(s) > 60000
+        for v in (rng.sample(range(256), 3 if huge else 6 if big else 14)):
             glines.append("gen xz %d %s" % (v, vlib.hexs(s))); gmeta.append(("xz", "gen-xz-v%d-s%d" % (v, si), s))
-        for v in rng.sample(range(28), 3 if big else 6):
+        for v in rng.sample(range(28), 1 if huge else 3 if big else 6):
             glines.append("gen alone %d %s" % (v, vlib.hexs(s))); gmeta.append(("lzma", "gen-alone-v%d-s%d" % (v, si), s))
         for v in (0, 1):
             glines.append("gen lzip %d %s" % (v, vlib.hexs(s))); gmeta.append(("lz", "gen-lzip-v%d-s%d" % (v, si), s))
-        for v in (rng.sample(range(24), 5 if big else 12)):
+        for v in (rng.sample(range(24), 2 if huge else 5 if big else 12)):
             glines.append("gen raw %d %s" % (v, vlib.hexs(s))); gmeta.append(("raw:%d" % v, "gen-raw-c%d-s%d" % (v, si), s))
         glines.append("gen micro 0 %s" % vlib.hexs(s)); gmeta.append(("micro", "gen-micro-s%d" % si, s))
-        for v in rng.sample(range(60), 3 if big else 6):
+        for v in rng.sample(range(60), 1 if huge else 3 if big else 6):
             glines.append("gen block %d %s" % (v, vlib.hexs(s))); gmeta.append(("block:%d" % (v % 4), "gen-block-v%d-s%d" % (v, si), s))
         for v in range(5):
             glines.append("gen index %d %s" % (v, vlib.hexs(s[:2400]))); gmeta.append(("index", "gen-index-v%d-s%d" % (v, si), s))
@@ -249,16 +250,19 @@ def benign_ops(ctx, corpus, plain):
         for name, data in corpus[fmt]:
             if not (name.startswith("gen-") or name.startswith("tests/files/good-")) or "#" in name:
                 continue
-            if len(data) > 30000:
+            if len(data) > 70000:
                 continue
             seed = rng.getrandbits(48)
             def ln(ep, p, cmd="run2"):
                 return "%s %s %d %d %d %d %d %s" % (cmd, ep, seed, p[0], p[1], p[2], p[3], vlib.hexs(data))
+            # the single-call functions get a 256 KiB output buffer: only expect success when the output is known to fit
+            fits = (len(plain[name]) <= 200000) if name in plain else len(data) <= 20000
             if fmt == "xz":
                 out.append((ln("stream", (0, U64, 0, 0)), 1))
                 out.append((ln("mt", (0, U64, rng.choice((1, 2, 4)), U64), "run"), 1))
                 out.append((ln("fileinfo", (0, U64, 0, 0)), 1))
-                out.append((ln("sbuf", (0, U64, 0, 0)), 0))
+                if fits:
+                    out.append((ln("sbuf", (0, U64, 0, 0)), 0))
             elif fmt == "lzma":
                 out.append((ln("alone", (0, U64, 0, 0)), 1))
                 out.append((ln("auto", (0, U64, 0, 0)), 1))
@@ -270,7 +274,8 @@ def benign_ops(ctx, corpus, plain):
                 out.append((ln("micro", (0, len(plain[name]), 1, 4096)), 1))
             elif fmt.startswith("block:") and name in plain:
                 out.append((ln("block", (int(fmt[6:]), 0, 0, 0)), 1))
-                out.append((ln("bbuf", (int(fmt[6:]), 0, 0, 0)), 0))
+                if fits:
+                    out.append((ln("bbuf", (int(fmt[6:]), 0, 0, 0)), 0))
             elif fmt == "index" and name in plain:
                 out.append((ln("index", (0, U64, 0, 0)), 1))
                 out.append((ln("ibuf", (0, U64, 0, 0)), 0))
@@ -391,7 +396,7 @@ def judge(ctx, results, stage):
             continue
         t = ln.split()
         ep = t[1] if len(t) > 1 else "?"
-        n_exec += 2 if t[0] == "run2" else 1
+        n_exec += 3 if t[0] == "run2" else 1     # run2 = fresh handle + priming run(s) + the same on the reused handle
         replay = {"op": ln, "entry_point": ep, "slicing_seed": t[2] if len(t) > 2 else None, "params": t[3:7],
                   "input_hex": t[7] if len(t) > 7 else None,
                   "how_to_replay": "./check C04 --replay <this file>   (or: echo '<op>' | .cache/harness-asan/c04)"}
@@ -490,7 +495,9 @@ def run(ctx):
                        "all filter chains), Blocks/Index fields cut out of them, hand-built CRC-correct containers with extreme fields, "
                        "structure-aware mutations (bit flips, truncations, field tweaks, splices, insertions; header CRCs recomputed for "
                        "half of them), raw noise with format magics, filter strings. Non-trivial = the entry point was actually called; "
-                       "distinct by full op line; run2 ops execute twice with different junk in fresh memory (2 executions).")
+                       "distinct by full op line; run2 ops execute on a fresh handle and again on a REUSED handle (a lzma_stream that first ran "
+                       "1-2 seeded coders on the same bytes, left in success / error / abandoned mid-stream, re-initialised without lzma_end), "
+                       "with different junk in fresh memory; the two results must be identical (3+ executions).")
     ctx.assumptions += [
         "proof (partial): memory safety / UB / uninitialised reads / leaks / deadlock of the compiled C are observed (ASan+UBSan+assert build, "
         "exact-size buffers, counting allocator, watchdog, junk-fill determinism check, valgrind sample in the thorough tier) on the generated inputs only",
@@ -524,7 +531,7 @@ def run(ctx):
     # K: observation engine
     t0 = time.time()
     corpus, plain = build_corpus(ctx, exe)
-    target = int(os.environ.get("C04_TARGET", 50000 if quick else 400000))   # (C04_TARGET: development knob)
+    target = int(os.environ.get("C04_TARGET", 50000 if quick else 300000))   # (C04_TARGET: development knob)
     lines = gen_ops(ctx, corpus, target)
     ctx.log("corpus %d files, %d op lines (%.1fs)" % (sum(len(v) for v in corpus.values()), len(lines), time.time() - t0))
     parts = vlib.chunks(lines, vlib.NCPU * 4)
@@ -563,7 +570,8 @@ def run(ctx):
     if not quick:
         vexe = build_harness(ctx, "dbg")
         if vexe is not None:
-            sample = [l.replace("run2 ", "run ", 1) for l in ctx.rng.sample(lines, min(len(lines), 8000)) if len(l) < 40000]
+            sample = [(l if i % 3 == 0 else l.replace("run2 ", "run ", 1))
+                      for i, l in enumerate(ctx.rng.sample(lines, min(len(lines), 8000))) if len(l) < 40000]
             vparts = vlib.chunks(sample, vlib.NCPU)
             pre = ["valgrind", "-q", "--error-exitcode=98", "--exit-on-first-error=yes", "--leak-check=full", "--errors-for-leak-kinds=definite",
                    "--track-origins=no", "--max-stackframe=4000000"]
